@@ -313,6 +313,12 @@ class Connection(object):
         if cls is None:
             # in the future, it could see if a sys.module cache/lookup hits first
             cls_methods = self.sync_request(consts.HANDLE_INSPECT, id_pack)
+            # waiting for the answer serves other messages: the same object may have arrived again, and got
+            # its proxy, in the meantime. There is one proxy per remote object: that one is the proxy.
+            proxy = self._proxy_cache.get(id_pack)
+            if proxy is not None:
+                proxy.____refcount__ += 1  # the count of this arrival goes to the proxy that exists
+                return proxy
             cls = netref.class_factory(id_pack, cls_methods)
             if id_pack[2] == 0:
                 # only use cached netrefs for classes
